@@ -251,7 +251,7 @@ func (r *Run) Finish() int {
 		"distinct_cases":                len(r.distinct),
 		"rule":                          r.Rule,
 		"samples":                       r.samples,
-		"states":                        maxi(r.States, len(r.distinct)),
+		"states":                        statesOf(r),
 		"transitions":                   maxi(r.Trans, r.evals),
 		"traces_validated_against_impl": maxi(r.Traces, r.evals),
 		"exhaustive":                    r.Exhaust && len(r.harness) == 0,
@@ -311,6 +311,13 @@ func (r *Run) Finish() int {
 		return 2
 	}
 	return 0
+}
+
+func statesOf(r *Run) int {
+	if r.States > 0 {
+		return r.States
+	}
+	return len(r.distinct)
 }
 
 func maxi(a, b int) int {
